@@ -1,7 +1,7 @@
 // Package reactive holds the harnesses for C13 (reactive subscribers see every change exactly once, in
 // order) and C14 (derived reactive values converge to their defining function) on ds/reactive.
 //
-// C13 (c13_var_test.go, c13_set_test.go)
+// C13 (c13_var_test.go, c13_set_test.go, c13_utils_test.go, c13_setutils_test.go)
 //
 //	variable  reactive.Variable[int]: 1..3 writers (Set/Compute/DefaultTo, unique values, now and then zero or a
 //	          no-op), 1..3 subscriber tasks (OnUpdate with/without the initial-trigger option at decision-chosen
@@ -9,10 +9,14 @@
 //	event     reactive.Event: triggerers (Trigger / Set(true) / attempts to reset), OnTrigger and OnUpdate subscribers
 //	set       reactive.Set[int] over 4 elements: Add/Delete/AddAll/DeleteAll/Apply/Compute/Replace writers
 //	          (VERIF_CONFIG token "noreplace" removes Replace from the mix)
+//	varutils  the subscription utilities of Variable[int] built on OnUpdate: OnUpdateOnce (with/without condition),
+//	          OnUpdateWithContext (1..2 withinContext set-ups per callback), WithValue (with/without condition),
+//	          WithNonEmptyValue; writers Set/Compute/ToggleValue+reset/Read
+//	setutils  Set.WithElements (with/without condition) and the ReadOnly view, same writers as "set"
 //
 // C14 (c14_*_test.go)
 //
-//	derived     DerivedVariable1..3, chains of derived variables, InheritFrom, DeriveValueFrom; built and torn down
+//	derived     DerivedVariable1..4, chains of derived variables, InheritFrom, DeriveValueFrom; built and torn down
 //	            while writers change the inputs
 //	derivedset  DerivedSet.InheritFrom of 1..3 sources (incl. unsubscribing a source) and SubtractReactive
 //	            (token "noreplace": sources are never Replaced)
@@ -42,6 +46,8 @@ func TestSim(t *testing.T) {
 		&simrt.Harness{Name: "variable", Body: variableBody},
 		&simrt.Harness{Name: "event", Body: eventBody},
 		&simrt.Harness{Name: "set", Body: setBody},
+		&simrt.Harness{Name: "varutils", Body: varutilsBody},
+		&simrt.Harness{Name: "setutils", Body: setutilsBody},
 		&simrt.Harness{Name: "derived", Body: derivedBody},
 		&simrt.Harness{Name: "derivedset", Body: derivedSetBody},
 		&simrt.Harness{Name: "counter", Body: counterBody},
@@ -94,6 +100,16 @@ func intersects(a, b []int) bool {
 		}
 	}
 	return false
+}
+
+// both returns the elements of a that are also in b.
+func both(a, b []int) (out []int) {
+	for _, x := range a {
+		if hasInt(b, x) {
+			out = append(out, x)
+		}
+	}
+	return out
 }
 
 // subset draws a subset of 1..n (possibly empty unless nonEmpty).
